@@ -8,6 +8,7 @@ CONSTANTS
   OddKinds = {"create_dot"}
   MaxSetup = 1
   MaxProbes = 2
+  MaxAfter = 0
   DotNameHandled = FALSE
   RpcPosCheckedFirst = FALSE
   Utf8LabelsHandled = FALSE
